@@ -500,12 +500,19 @@ func cmdHistory(args []string) {
 		nsingle := 25
 		if thorough {
 			perObj, nsingle = len(fam), 120
+			if perObj > 48 {
+				perObj = 48 // (observations are kept in memory until they are written: 10^6 runs of 377 results is the limit)
+			}
 		}
 		for oi, t := range objs {
-			order := rng.Perm(len(fam))[:perObj]
+			po, ns := perObj, nsingle
+			if strings.HasPrefix(t.ID, "forged:") {
+				po, ns = 6, 25 // forged inputs are many: the quick proportions, in both tiers
+			}
+			order := rng.Perm(len(fam))[:po]
 			sg := single[t.Kind]
 			var picks []int
-			for j := 0; j < nsingle && j < len(sg); j++ {
+			for j := 0; j < ns && j < len(sg); j++ {
 				picks = append(picks, sg[rng.Intn(len(sg))])
 			}
 			if oi%2 == 0 {
